@@ -269,3 +269,5 @@ def _sel_unlabelled(case, disc):
 
 
 SELECTORS = {"unlabelled_write": _sel_unlabelled}
+
+FUZZ = [("ts_roundtrip", 10000)]
